@@ -853,6 +853,10 @@ class _MIPS32_ELF(ABI):
     def nop(self) -> bytes:
         return b"\x00\x00\x00\x00"
 
+    def byteorder(self) -> Literal["little", "big"]:
+        # The assembler targets the big-endian "mips" triple.
+        return "big"
+
     def caller_saved_registers(self) -> Set[Register]:
         # Temporary regsiters ($t0=$t9)
         results = {
